@@ -213,6 +213,22 @@ CLAIMED['C18'] = dict(
          'issued one after the other (the invariants are quiescent-point invariants); the poll thread runs concurrently.',
     design='6/C18')
 
+CLAIMED['C06'] = dict(
+    level='exploration',
+    text='Seeded search over nodes built from generated module classes (all datatypes, readonly/constant/export flags, '
+         'commands, unexported modules, constants of every datatype) and from the shipped hardware-free configurations '
+         '(demo, sim, cryo, test, sim_mlz_htf02, sim_mlz_cci3he1, ls370sim; their threads, sleeps and random numbers run '
+         'behind the seams), probed by a describing client over the wire while poll threads and a second client run: '
+         'description strict JSON and stable between calls; described datainfo accepts/rejects what the node does '
+         '(reference validator); every emitted value (read/changed replies, updates) importable by the reference '
+         'validator and by frappy\'s own client datatype; readonly/constant flags predict refusal, constants read as '
+         'described; undescribed modules/accessibles (known to the harness) unreachable by read/change/do/activate.',
+    note='Trusted: simulation kernel, reference validator (DONTCARE = leniencies), the harness\' knowledge of what exists '
+         'but is not exported. The clause "interface class and features match the implementing class" is a pure '
+         'configuration->string mapping and is only checked as a rider in generated mode. In shipped mode a refused '
+         'valid payload is not judged.',
+    design='6/C06')
+
 NOT_APPLICABLE = {
     'C01': 'pure function of (datatype, candidate, previous) - no schedule, clock, I/O or fault dimension for a simulator to decide',
     'C02': 'pure round-trip law over (datatype, value) - no schedule, clock, I/O or fault dimension',
